@@ -18,6 +18,7 @@ from ..core import astutil as au
 from ..core.report import AnalysisError
 from ..expr.lift import Lifter, equal
 from .c09 import pairing_table, rule_RO
+from ..core.template import find, has, require
 
 LEVEL = 'other'
 FIELDS = 'emg3d/fields.py'
@@ -54,31 +55,38 @@ def rule_SF(ctx, fm):
     ctx.check('C10.SF.dispatch', 'get_source_field dispatch table',
               table == want, f'dispatch is {table}', ctx.where(fm, chain[0]),
               sample={'table': table})
-    t = ast.unparse(fn).replace(' ', '')
+    vf = find(f'_v_ = _point_vector({g}, {s}.coordinates)', fn)
+    vname = vf[0][1]['_v_'] if vf else 'vfield'
+    sf_ = find(f'_sf_ = Field({g}, data={vname}.field, frequency={f})', fn)
     ctx.check('C10.SF.scaling', 'get_source_field: field from the vector',
-              f'sfield=Field({g},data=vfield.field,frequency={f})' in t,
-              'source field is not built from the source vector on this '
-              'grid / frequency', ctx.where(fm, fn))
+              len(sf_) == 1, 'source field is not built from the source '
+              'vector on this grid / frequency', ctx.where(fm, fn))
+    sfn = sf_[0][1]['_sf_'] if sf_ else 'sfield'
     ctx.check('C10.SF.scaling', 'get_source_field: times strength',
-              f'sfield.field*={s}.strength' in t,
+              has(f'{sfn}.field *= {s}.strength', fn),
               'source vector is not multiplied by the source strength',
               ctx.where(fm, fn))
-    sc = [n for n in ast.walk(fn) if isinstance(n, ast.AugAssign) and
-          'smu0' in ast.unparse(n.value)]
-    ok = len(sc) == 1 and ast.unparse(sc[0]).replace(' ', '') == \
-        'sfield.field*=-sfield.smu0' and [
-            (ast.unparse(t_).replace(' ', ''), p) for t_, p in
-            au.guards_of(sc[0], fn)] == [(f'{f}isnotNone', True)]
+    sc = find(f'{sfn}.field *= -{sfn}.smu0', fn)
+    ok = len(sc) == 1 and [
+        (ast.unparse(t_).replace(' ', ''), p) for t_, p in
+        au.guards_of(sc[0][0], fn)] == [(f'{f}isnotNone', True)]
+    other = [n for n in ast.walk(fn) if isinstance(n, (ast.AugAssign,
+                                                       ast.Assign))
+             and 'smu0' in ast.unparse(n) and (not sc or n is not sc[0][0])]
     ctx.check('C10.SF.scaling', 'get_source_field: -s mu0 only with a '
-              'frequency', ok, 'scaling by -s mu0 is missing, has another '
-              'sign, or is not guarded by `frequency is not None`',
+              'frequency', ok and not other, 'scaling by -s mu0 is missing, '
+              'has another sign, or is not guarded by `frequency is not '
+              'None`', ctx.where(fm, fn))
+    rets = [n for n in ast.walk(fn) if isinstance(n, ast.Return)]
+    ctx.check('C10.SF.scaling', 'get_source_field returns the scaled field',
+              len(rets) == 1 and ast.unparse(rets[0].value) == sfn,
+              'the scaled source field is not what is returned',
               ctx.where(fm, fn))
     # tuple input -> electrode objects
-    ctx.check('C10.SF.dispatch', 'get_source_field: coordinate input',
-              f"{s}=electrodes.TxElectricWire({s},**inp)" in t and
-              f"{s}=electrodes.TxElectricDipole({s},**inp)" in t and
-              f"{s}=electrodes.TxMagneticDipole({s},**inp)" in t and
-              f"if{s}.size>6:" in t,
+    ok = has(f'{s} = electrodes.TxElectricWire({s}, **_i_)', fn) and \
+        has(f'{s} = electrodes.TxElectricDipole({s}, **_i_)', fn) and \
+        has(f'{s} = electrodes.TxMagneticDipole({s}, **_i_)', fn)
+    ctx.check('C10.SF.dispatch', 'get_source_field: coordinate input', ok,
               'coordinate tuples are not turned into wire / electric / '
               'magnetic dipole sources', ctx.where(fm, fn))
 
@@ -134,54 +142,62 @@ def rule_DV(ctx, fm):
                   'x_len', ctx.where(fm, fn),
                   sample={'component': comp, 'sum': str(sp.simplify(total))})
     ctx.floor('C10.DV.pairing', 27)
-    # linear weights
-    t = ast.unparse(fn).replace(' ', '')
+    # linear weights: r = (x_c[a] - nodes_a[i_a]) / h_a[i_a], e = 1 - r
+    xc = None
     for a, ax in enumerate('xyz'):
-        ok = f'r{ax}=(x_c[{a}]-nodes_{ax}[i{ax}])/grid.h[{a}][i{ax}]' in t \
-            and f'e{ax}=1-r{ax}' in t
+        f = find(f'r{ax} = (_xc_[{a}] - _n_[i{ax}]) / grid.h[{a}][i{ax}]', fn)
+        ok = len(f) == 1 and has(f'e{ax} = 1 - r{ax}', fn)
+        if ok:
+            nd = f[0][1]['_n_']
+            ok = has(f'{nd} = np.round(grid.nodes_{ax}, __)', fn)
+            xc = f[0][1]['_xc_']
         ctx.check('C10.DV.linear', f'_dipole_vector weights axis {ax}', ok,
                   f'weights of axis {ax} are not r=(x_c-node)/h, e=1-r of '
                   'the same axis', ctx.where(fm, fn))
+    ok = False
+    if xc:
+        c = find(f'{xc} = (_lo_ + _hi_) / 2.0', fn)
+        if c:
+            lo, hi = c[0][1]['_lo_'], c[0][1]['_hi_']
+            ok = has(f'x_len = np.linalg.norm({hi} - {lo}) / _L_', fn) or \
+                has(f'x_len = np.linalg.norm({lo} - {hi}) / _L_', fn)
+            ok = ok and has(f'{lo} = _p_[0, :] + _al_ * _d_', fn) and \
+                has(f'{hi} = _p_[0, :] + _ar_ * _d_', fn)
     ctx.check('C10.DV.linear', '_dipole_vector segment centre and length',
-              'x_c=(xmin+xmax)/2.0' in t and
-              'x_len=np.linalg.norm(xmax-xmin)/length' in t and
-              'xmin=points[0,:]+al*dxdydz' in t and
-              'xmax=points[0,:]+ar*dxdydz' in t,
-              'clipped segment centre / length fraction changed',
+              ok, 'clipped segment centre / length fraction changed',
               ctx.where(fm, fn))
     # normalisation guard for all three components, then scaling
-    loops = [n for n in fn.body if isinstance(n, ast.For) and
-             'sum_s' in ast.unparse(n)]
+    loops = [n for n in fn.body if isinstance(n, ast.For) and find(
+        '_f_ /= _s_', n)]
     ctx.anchor(len(loops) == 1, 'normalisation loop in _dipole_vector')
-    lp = ast.unparse(loops[0]).replace(' ', '')
-    ctx.check('C10.DV.normalise', '_dipole_vector normalisation guard',
-              'forfieldin[vfield.fx,vfield.fy,vfield.fz]:' in lp and
-              'sum_s=abs(field.sum())' in lp and
-              'ifabs(sum_s-1)>1e-06:' in lp and 'field/=sum_s' in lp,
+    lp = loops[0]
+    lv = ast.unparse(lp.target)
+    ok = has('[vfield.fx, vfield.fy, vfield.fz]', lp.iter) and \
+        has(f'_s_ = abs({lv}.sum())', lp) and has(f'{lv} /= _s_', lp)
+    ctx.check('C10.DV.normalise', '_dipole_vector normalisation guard', ok,
               'the three components are not all re-normalised to unit sum '
-              'when they deviate', ctx.where(fm, loops[0]))
+              'when they deviate', ctx.where(fm, lp))
+    ext = find('_d_ = _p_[1, :] - _p_[0, :]', fn)
+    ctx.check('C10.DV.scaling', '_dipole_vector: extent = last - first '
+              'electrode', len(ext) == 1, 'dipole extent is not second minus '
+              'first electrode', ctx.where(fm, fn))
+    dname = ext[0][1]['_d_'] if ext else 'dxdydz'
     for a, comp in enumerate(('fx', 'fy', 'fz')):
         sc = [n for n in fn.body if isinstance(n, ast.AugAssign) and
               ast.unparse(n.target) == f'vfield.{comp}']
-        ok = len(sc) == 1 and ast.unparse(sc[0]).replace(' ', '') == \
-            f'vfield.{comp}*=dxdydz[{a}]' and sc[0].lineno > \
-            loops[0].lineno
-        ctx.check('C10.DV.scaling', f'_dipole_vector: {comp} *= '
-                  f'dxdydz[{a}]', ok, f'{comp} is not scaled by the '
-                  f'{"xyz"[a]}-extent of the dipole after normalisation',
-                  ctx.where(fm, fn), sample={'component': comp})
-    ctx.check('C10.DV.scaling', '_dipole_vector: extent = last - first '
-              'electrode', 'dxdydz=points[1,:]-points[0,:]' in t,
-              'dipole extent is not second minus first electrode',
-              ctx.where(fm, fn))
+        ok = len(sc) == 1 and has(f'vfield.{comp} *= {dname}[{a}]', sc[0]) \
+            and sc[0].lineno > lp.lineno
+        ctx.check('C10.DV.scaling', f'_dipole_vector: {comp} *= extent[{a}]',
+                  ok, f'{comp} is not scaled by the {"xyz"[a]}-extent of the '
+                  'dipole after normalisation', ctx.where(fm, fn),
+                  sample={'component': comp})
     # wires: sum over consecutive segments
+    seg = find('for _a_, _b_ in zip(_p_[:-1, :], _p_[1:, :]):\n'
+               '    vfield.field += _dipole_vector(grid, '
+               'points=np.r_[[_a_, _b_]], decimals=__, nodes=__).field', fn)
     ctx.check('C10.DV.segments', '_dipole_vector sums consecutive segments',
-              'forp0,p1inzip(points[:-1,:],points[1:,:]):' in t and
-              'vfield.field+=_dipole_vector(grid,points=np.r_[[p0,p1]],'
-              'decimals=decimals,nodes=(nodes_x,nodes_y,nodes_z)).field' in t
-              and 'ifpoints.shape[0]!=2:' in t,
-              'a wire is not the sum of its consecutive two-point segments',
-              ctx.where(fm, fn))
+              len(seg) == 1, 'a wire is not the sum of its consecutive '
+              'two-point segments', ctx.where(fm, fn))
     ctx.floor('C10.DV.scaling', 4)
 
 
@@ -200,21 +216,29 @@ def rule_GE(ctx):
         return sp.Matrix([lf.lift(x) for x in ret.value.args[0].elts])
     # point_to_dipole
     p2d = em.func('point_to_dipole')
-    t = ast.unparse(p2d).replace(' ', '')
     pp = au.params(p2d)
-    ctx.check('C10.GE.dipole', 'point_to_dipole = centre -/+ dir*L/2',
-              f'xyz=rotation({pp[0]}[3],{pp[0]}[4],deg=deg)*{pp[1]}/2' in t
-              and f'return{pp[0]}[:3]+np.array([-xyz,xyz])' in t,
+    h = find(f'_x_ = rotation({pp[0]}[3], {pp[0]}[4], deg=__) * {pp[1]} / 2',
+             p2d) or find(f'_x_ = rotation({pp[0]}[3], {pp[0]}[4], deg=__) '
+                          f'* ({pp[1]} / 2)', p2d)
+    ok = len(h) == 1 and has(f'return {pp[0]}[:3] + np.array([-'
+                             f'{h[0][1]["_x_"]}, {h[0][1]["_x_"]}])', p2d)
+    ctx.check('C10.GE.dipole', 'point_to_dipole = centre -/+ dir*L/2', ok,
               'electrodes are not centre minus / plus half the length along '
               'the direction', ctx.where(em, p2d))
     # dipole_to_point
     d2p = em.func('dipole_to_point')
-    t = ast.unparse(d2p).replace(' ', '')
-    ctx.check('C10.GE.dipole', 'dipole_to_point formulas',
-              'azimuth=np.angle(dx+1j*dy,deg=deg)' in t and
-              'elevation=np.angle(np.sqrt(dx**2+dy**2)+1j*dz,deg=deg)' in t
-              and 'length=np.linalg.norm([dx,dy,dz])' in t and
-              'return(azimuth,elevation,length)' in t,
+    u = find('_dx_, _dy_, _dz_ = np.diff(_d_.T).squeeze()', d2p)
+    ok = len(u) == 1
+    if ok:
+        dx, dy, dz = (u[0][1][k] for k in ('_dx_', '_dy_', '_dz_'))
+        az_ = find(f'_a_ = np.angle({dx} + 1j * {dy}, deg=__)', d2p)
+        el_ = find(f'_e_ = np.angle(np.sqrt({dx} ** 2 + {dy} ** 2) + 1j * '
+                   f'{dz}, deg=__)', d2p)
+        ln_ = find(f'_l_ = np.linalg.norm([{dx}, {dy}, {dz}])', d2p)
+        ok = len(az_) == 1 and len(el_) == 1 and len(ln_) == 1 and has(
+            f'return ({az_[0][1]["_a_"]}, {el_[0][1]["_e_"]}, '
+            f'{ln_[0][1]["_l_"]})', d2p)
+    ctx.check('C10.GE.dipole', 'dipole_to_point formulas', ok,
               'azimuth / elevation / length are not atan2(dy,dx), '
               'atan2(dz,hypot(dx,dy)), |d|', ctx.where(em, d2p))
     # the conversion pair is consistent: direction(az, el)*L reproduces d
@@ -259,29 +283,36 @@ def rule_GE(ctx):
               'dipole direction', ctx.where(em, sq),
               sample={'normal': [str(sp.simplify(x)) for x in normal]})
     ctx.check('C10.GE.loop', 'square loop closed and ordered',
-              f'points={sp_[0]}[:3]+np.stack([xyz_hor,xyz_ver,-xyz_hor,'
-              '-xyz_ver,xyz_hor])' in t,
+              has(f'_p_ = {sp_[0]}[:3] + np.stack([xyz_hor, xyz_ver, '
+                  '-xyz_hor, -xyz_ver, xyz_hor])', sq),
               'loop is not hor, ver, -hor, -ver, hor around the centre '
               '(closed, counter-clockwise about the normal)',
               ctx.where(em, sq))
+    for k in ('xyz_hor', 'xyz_ver'):
+        ctx.check('C10.GE.loop', f'square loop: {k} scaled by the half '
+                  'diagonal', has(f'{k} = rotation(__, __) * half_diag', sq),
+                  'loop axis is not direction times half diagonal',
+                  ctx.where(em, sq))
     # Dipole coordinate formats
     dp = em.cls('Dipole')
     init = [f for f in dp.body if isinstance(f, ast.FunctionDef) and
             f.name == '__init__'][0]
-    t = ast.unparse(init).replace(' ', '')
-    ctx.check('C10.GE.formats', 'Dipole: three coordinate formats',
-              'is_point=coordinates.shape==(5,)' in t and
-              'is_flat=coordinates.shape==(6,)' in t and
-              'is_dipole=coordinates.shape==(2,3)' in t,
+    ip = au.params(init)
+    co = ip[1]
+    ok = has(f'_a_ = {co}.shape == (5,)', init) and has(
+        f'_b_ = {co}.shape == (6,)', init) and has(
+        f'_c_ = {co}.shape == (2, 3)', init)
+    ctx.check('C10.GE.formats', 'Dipole: three coordinate formats', ok,
               'accepted coordinate shapes changed', ctx.where(em, init))
     ctx.check('C10.GE.formats', 'Dipole: flat format is (x1,x2,y1,y2,z1,z2)',
-              "points=coordinates.reshape((2,3),order='F')" in t,
+              has(f"_p_ = {co}.reshape((2, 3), order='F')", init),
               'flat coordinates are not reshaped column-wise into two '
               'electrodes', ctx.where(em, init))
     ctx.check('C10.GE.formats', 'Dipole: point format goes through the '
-              'conversions', 'points=point_to_square_loop(coordinates,length)'
-              in t and 'points=point_to_dipole(coordinates,length)' in t and
-              'azimuth,elevation,length=dipole_to_point(points)' in t,
+              'conversions', has(f'_p_ = point_to_square_loop({co}, {ip[2]})',
+                                 init) and
+              has(f'_p_ = point_to_dipole({co}, {ip[2]})', init) and
+              has('_a_, _e_, _l_ = dipole_to_point(_p_)', init),
               'point format is not converted through point_to_dipole / '
               'point_to_square_loop', ctx.where(em, init))
 
